@@ -825,111 +825,6 @@ end CssVerif.Validate
 namespace CssVerif.Validate
 variable {π : Type}
 
-theorem mem_nnamesRev : ∀ (l : List Prop') (names : List Str) (x : Str),
-    x ∈ nnamesRev l names ↔ (x ∈ names ∨ ∃ p ∈ l, p.name = x) := by
-  intro l
-  induction l with
-  | nil => intro names x; simp [nnamesRev]
-  | cons p r ih =>
-    intro names x
-    simp only [nnamesRev]
-    split
-    · rename_i hc
-      rw [ih]
-      simp only [List.contains_iff_mem] at hc
-      constructor
-      · rintro (h | ⟨q, hq, rfl⟩)
-        · exact Or.inl h
-        · exact Or.inr ⟨q, List.mem_cons_of_mem _ hq, rfl⟩
-      · rintro (h | ⟨q, hq, rfl⟩)
-        · exact Or.inl h
-        · simp only [List.mem_cons] at hq
-          rcases hq with rfl | hq
-          · exact Or.inl hc
-          · exact Or.inr ⟨q, hq, rfl⟩
-    · rw [ih]
-      simp only [List.mem_append, List.mem_singleton]
-      constructor
-      · rintro ((h | rfl) | ⟨q, hq, rfl⟩)
-        · exact Or.inl h
-        · exact Or.inr ⟨p, by simp, rfl⟩
-        · exact Or.inr ⟨q, List.mem_cons_of_mem _ hq, rfl⟩
-      · rintro (h | ⟨q, hq, rfl⟩)
-        · exact Or.inl (Or.inl h)
-        · simp only [List.mem_cons] at hq
-          rcases hq with rfl | hq
-          · exact Or.inl (Or.inr rfl)
-          · exact Or.inr ⟨q, hq, rfl⟩
-
-theorem mem_nnames (b : Block) (x : Str) : x ∈ nnames b ↔ ∃ p ∈ allProps b, p.name = x := by
-  simp only [nnames, List.mem_reverse, mem_nnamesRev, List.not_mem_nil, false_or]
-
-theorem getPropertyRev_some : ∀ (name : Str) (l : List Prop') (found : Option Prop') (q : Prop'),
-    getPropertyRev name l found = some q → (found = some q ∨ (q ∈ l ∧ q.name = name)) := by
-  intro name l
-  induction l with
-  | nil => intro found q h; simp only [getPropertyRev] at h; exact Or.inl h
-  | cons p r ih =>
-    intro found q h
-    simp only [getPropertyRev] at h
-    split at h
-    · rename_i hn
-      have hn' : p.name = name := by simpa using hn
-      split at h
-      · simp only [Option.some.injEq] at h
-        subst h; exact Or.inr ⟨by simp, hn'⟩
-      · rcases ih _ q h with h1 | ⟨h1, h2⟩
-        · split at h1
-          · simp only [Option.some.injEq] at h1
-            subst h1; exact Or.inr ⟨by simp, hn'⟩
-          · exact Or.inl h1
-        · exact Or.inr ⟨List.mem_cons_of_mem _ h1, h2⟩
-    · rcases ih _ q h with h1 | ⟨h1, h2⟩
-      · exact Or.inl h1
-      · exact Or.inr ⟨List.mem_cons_of_mem _ h1, h2⟩
-
-theorem getPropertyRev_isSome : ∀ (name : Str) (l : List Prop') (found : Option Prop'),
-    (found.isSome = true ∨ ∃ p ∈ l, p.name = name) → (getPropertyRev name l found).isSome = true := by
-  intro name l
-  induction l with
-  | nil =>
-    intro found h
-    simp only [getPropertyRev]
-    rcases h with h | ⟨p, hp, _⟩
-    · exact h
-    · simp at hp
-  | cons p r ih =>
-    intro found h
-    simp only [getPropertyRev]
-    split
-    · split
-      · rfl
-      · apply ih
-        left
-        cases found <;> simp
-    · rename_i hn
-      apply ih
-      rcases h with h | ⟨q, hq, hqn⟩
-      · exact Or.inl h
-      · simp only [List.mem_cons] at hq
-        rcases hq with rfl | hq
-        · simp [hqn] at hn
-        · exact Or.inr ⟨q, hq, hqn⟩
-
-/-- `getProperties()` never contains `None`: every effective entry is an entry of the block -/
-theorem effective_some (b : Block) : ∀ o ∈ effective b, ∃ p ∈ allProps b, o = some p := by
-  intro o ho
-  simp only [effective, List.mem_map] at ho
-  obtain ⟨n, hn, rfl⟩ := ho
-  obtain ⟨p, hp, hpn⟩ := (mem_nnames b n).1 hn
-  have hs := getPropertyRev_isSome n (allProps b).reverse none (Or.inr ⟨p, List.mem_reverse.2 hp, hpn⟩)
-  cases hg : getPropertyRev n (allProps b).reverse none with
-  | none => rw [hg] at hs; simp at hs
-  | some q =>
-    rcases getPropertyRev_some n _ none q hg with h | ⟨h, _⟩
-    · simp at h
-    · exact ⟨q, List.mem_reverse.1 h, by simp [getProperty, hg]⟩
-
 theorem allM_true {α : Type} (f : α → Except Err Bool) : ∀ l, allM f l = .ok true ↔ ∀ x ∈ l, f x = .ok true := by
   intro l
   induction l with
@@ -948,40 +843,14 @@ theorem isTrue_iff (x : Except Err Bool) : isTrue x = true ↔ x = .ok true := b
   | error e => simp [isTrue]
   | ok b => cases b <;> simp [isTrue]
 
-/-- `CSSStyleDeclaration.valid` is the conjunction over the EFFECTIVE properties -/
+/-- `CSSStyleDeclaration.valid` is the conjunction over ALL declarations of the block -/
 theorem declValid_true_iff (acc : π → Str → Option Bool) (reg : Registry π) (ff : Str) (fontFace : Bool) (b : Block) :
-    declValid acc reg ff fontFace b = .ok true ↔
-      ∀ p, some p ∈ effective b → propValid acc reg ff fontFace p = .ok true := by
-  unfold declValid
-  rw [allM_true]
+    declValid acc reg ff fontFace b = .ok true ↔ allEntriesValid acc reg ff fontFace b = true := by
+  unfold declValid allEntriesValid
+  rw [allM_true, List.all_eq_true]
   constructor
-  · intro h p hp; exact h (some p) hp
-  · intro h o ho
-    obtain ⟨p, _, rfl⟩ := effective_some b o ho
-    exact h p ho
-
-/-- (⇐ of the conjunction, no guard) all entries valid ⇒ the block is valid -/
-theorem declValid_of_all (acc : π → Str → Option Bool) (reg : Registry π) (ff : Str) (fontFace : Bool) (b : Block)
-    (h : allEntriesValid acc reg ff fontFace b = true) : declValid acc reg ff fontFace b = .ok true := by
-  rw [declValid_true_iff]
-  intro p hp
-  obtain ⟨q, hq, e⟩ := effective_some b _ hp
-  simp only [Option.some.injEq] at e
-  subst e
-  simp only [allEntriesValid, List.all_eq_true] at h
-  exact (isTrue_iff _).1 (h p hq)
-
-/-- (⇒ of the conjunction) holds exactly under the guard: no overridden (non-effective) entry is invalid -/
-theorem all_of_declValid (acc : π → Str → Option Bool) (reg : Registry π) (ff : Str) (fontFace : Bool) (b : Block)
-    (guard : ∀ p ∈ allProps b, some p ∉ effective b → propValid acc reg ff fontFace p = .ok true)
-    (h : declValid acc reg ff fontFace b = .ok true) : allEntriesValid acc reg ff fontFace b = true := by
-  rw [declValid_true_iff] at h
-  simp only [allEntriesValid, List.all_eq_true]
-  intro p hp
-  rw [isTrue_iff]
-  by_cases he : some p ∈ effective b
-  · exact h p he
-  · exact guard p hp he
+  · intro h p hp; exact (isTrue_iff _).2 (h p hp)
+  · intro h p hp; exact (isTrue_iff _).1 (h p hp)
 
 theorem removeFirst_subset (x : Str) : ∀ l y, y ∈ removeFirst x l → y ∈ l := by
   intro l
@@ -1094,77 +963,73 @@ end CssVerif.Validate
 namespace CssVerif.Validate
 variable {π : Type}
 
-theorem rulesAllValid_eq (acc : π → Str → Option Bool) (reg : Registry π) (ff : Str) :
-    ∀ rs, rulesAllValid acc reg ff rs = rs.all (ruleAllValid acc reg ff) := by
-  intro rs
-  induction rs with
-  | nil => simp [rulesAllValid]
-  | cons r rs ih => simp [rulesAllValid, ih]
-
-/-- rules that have a `valid` attribute, or no declarations at all -/
-def Rule.plain : Rule → Bool
-  | .style _ => true
-  | .fontFace _ => true
-  | .other => true
-  | .media _ => false
-  | .page _ _ => false
-
-/-- `CSSStyleSheet.valid`: every top-level rule that has a `valid` attribute is valid -/
-theorem sheetValid_true_iff (acc : π → Str → Option Bool) (reg : Registry π) (ff : Str) (rules : List Rule) :
-    sheetValid acc reg ff rules = .ok true ↔
-      ∀ r ∈ rules, ruleValid acc reg ff r = none ∨ ruleValid acc reg ff r = some (.ok true) := by
-  unfold sheetValid
-  rw [allM_true]
+theorem allM_all_blocks (acc : π → Str → Option Bool) (reg : Registry π) (ff : Str) (ms : List Block) :
+    allM (declValid acc reg ff false) ms = .ok true ↔ ms.all (allEntriesValid acc reg ff false) = true := by
+  rw [allM_true, List.all_eq_true]
   constructor
-  · intro h r hr
-    have := h r hr
-    cases hv : ruleValid acc reg ff r with
-    | none => exact Or.inl rfl
-    | some v => simp only [hv] at this; exact Or.inr (by rw [this])
-  · intro h r hr
-    rcases h r hr with h1 | h1 <;> simp [h1]
+  · intro h b hb; exact (declValid_true_iff acc reg ff false b).1 (h b hb)
+  · intro h b hb; exact (declValid_true_iff acc reg ff false b).2 (h b hb)
 
-/-- the guard under which a block's `valid` is the conjunction over ALL its entries -/
-def NoShadowedInvalid (acc : π → Str → Option Bool) (reg : Registry π) (ff : Str) (b : Block) : Prop :=
-  ∀ p ∈ allProps b, some p ∉ effective b → propValid acc reg ff false p = .ok true
+mutual
+/-- a rule that has `valid`: it is `True` iff every declaration anywhere inside the rule is valid (for
+`@font-face` also the two required descriptors); a rule without `valid` has no declarations -/
+theorem ruleValid_spec (acc : π → Str → Option Bool) (reg : Registry π) (ff : Str) : (r : Rule) →
+    (ruleValid acc reg ff r = none ∧ ruleAllValid acc reg ff r = true) ∨
+    (∃ v, ruleValid acc reg ff r = some v ∧ (v = .ok true ↔ ruleAllValid acc reg ff r = true))
+  | .style b => Or.inr ⟨declValid acc reg ff false b, by simp [ruleValid], by
+      simp only [ruleAllValid]; exact declValid_true_iff acc reg ff false b⟩
+  | .fontFace b => Or.inr ⟨fontFaceValid acc reg ff b, by simp [ruleValid], fontFaceValid_true_iff acc reg ff b⟩
+  | .media rs => Or.inr ⟨rulesValid acc reg ff rs, by simp [ruleValid], by
+      simp only [ruleAllValid]; exact rulesValid_spec acc reg ff rs⟩
+  | .page b ms => Or.inr ⟨pageValid acc reg ff b ms, by simp [ruleValid], by
+      simp only [ruleAllValid, Bool.and_eq_true, pageValid]
+      have hd := declValid_true_iff acc reg ff false b
+      cases hb : declValid acc reg ff false b with
+      | error e =>
+        rw [hb] at hd
+        constructor
+        · intro h; cases h
+        · intro h; cases hd.2 h.1
+      | ok v =>
+        rw [hb] at hd
+        cases v with
+        | false =>
+          constructor
+          · intro h; cases h
+          · intro h; cases hd.2 h.1
+        | true =>
+          rw [allM_all_blocks]
+          constructor
+          · intro h; exact ⟨hd.1 rfl, h⟩
+          · intro h; exact h.2⟩
+  | .other => Or.inl ⟨by simp [ruleValid], by simp [ruleAllValid]⟩
+theorem rulesValid_spec (acc : π → Str → Option Bool) (reg : Registry π) (ff : Str) : (rs : List Rule) →
+    (rulesValid acc reg ff rs = .ok true ↔ rulesAllValid acc reg ff rs = true)
+  | [] => by simp [rulesValid, rulesAllValid]
+  | r :: rs => by
+      have ih := rulesValid_spec acc reg ff rs
+      simp only [rulesValid, rulesAllValid, Bool.and_eq_true]
+      rcases ruleValid_spec acc reg ff r with ⟨h1, h2⟩ | ⟨v, h1, h2⟩
+      · simp only [h1, h2, true_and]; exact ih
+      · simp only [h1]
+        cases v with
+        | error e =>
+          have : ¬ ruleAllValid acc reg ff r = true := fun h => by cases h2.2 h
+          simp [this]
+        | ok b =>
+          cases b with
+          | false =>
+            have : ¬ ruleAllValid acc reg ff r = true := fun h => by cases h2.2 h
+            simp [this]
+          | true =>
+            have : ruleAllValid acc reg ff r = true := h2.1 rfl
+            simp only [this, true_and]; exact ih
+end
 
-theorem sheet_conjunction (acc : π → Str → Option Bool) (reg : Registry π) (ff : Str) (rules : List Rule)
-    (hplain : ∀ r ∈ rules, r.plain = true)
-    (hguard : ∀ b, Rule.style b ∈ rules → NoShadowedInvalid acc reg ff b) :
-    sheetValid acc reg ff rules = .ok true ↔ rulesAllValid acc reg ff rules = true := by
-  rw [sheetValid_true_iff, rulesAllValid_eq, List.all_eq_true]
-  constructor
-  · intro h r hr
-    have hp := hplain r hr
-    rcases h r hr with h1 | h1
-    · cases r <;> simp [ruleValid, Rule.plain] at h1 hp ⊢
-      simp [ruleAllValid]
-    · cases r with
-      | style b =>
-        simp only [ruleValid, Option.some.injEq] at h1
-        simp only [ruleAllValid]
-        exact all_of_declValid acc reg ff false b (hguard b hr) h1
-      | fontFace b =>
-        simp only [ruleValid, Option.some.injEq] at h1
-        exact (fontFaceValid_true_iff acc reg ff b).1 h1
-      | media _ => simp [ruleValid] at h1
-      | page _ _ => simp [ruleValid] at h1
-      | other => simp [ruleValid] at h1
-  · intro h r hr
-    have hp := hplain r hr
-    have hr' := h r hr
-    cases r with
-    | style b =>
-      right
-      simp only [ruleValid, Option.some.injEq]
-      exact declValid_of_all acc reg ff false b (by simpa [ruleAllValid] using hr')
-    | fontFace b =>
-      right
-      simp only [ruleValid, Option.some.injEq]
-      exact (fontFaceValid_true_iff acc reg ff b).2 hr'
-    | media _ => simp [Rule.plain] at hp
-    | page _ _ => simp [Rule.plain] at hp
-    | other => left; rfl
+/-- `CSSStyleSheet.valid` ⇔ every declaration anywhere in the sheet is valid -/
+theorem sheet_conjunction (acc : π → Str → Option Bool) (reg : Registry π) (ff : Str) (rules : List Rule) :
+    sheetValid acc reg ff rules = .ok true ↔ rulesAllValid acc reg ff rules = true :=
+  rulesValid_spec acc reg ff rules
 
 end CssVerif.Validate
 
